@@ -166,7 +166,10 @@ def run_task(task):
         if allc and ctx.check(z3.Or(*[c == ord('/') for c in allc])):      # reachability witness
             ctx.note('roundtrip-with-slash')
         if len(cn) == 2:
-            err = _e2e(cn)
+            try:
+                err = _e2e(cn)
+            except Exception as e:
+                err = repr(e)[:100]
             if err:
                 ctx.fail('e2e', names=cn, error=err)
             ctx.note('e2e-witness')
@@ -188,7 +191,10 @@ def run_task(task):
                 if tuple(wn) in seen:
                     continue
                 seen.add(tuple(wn))
-                err = _e2e(wn)
+                try:
+                    err = _e2e(wn)
+                except Exception as e:
+                    err = repr(e)[:100]
                 if err:
                     raise Violation(dict(what='e2e', inputs=dict(names=wn), names=wn, error=err))
 
@@ -273,16 +279,20 @@ def _enumerate(common, task):
                 if err:
                     viol.append(dict(what='e2e', inputs=dict(names=list(names)), names=list(names), error=err))
     elif task['kind'] == 'walias':
+        # shared state makes later pairs depend on earlier ones: pairs whose FIRST path is right and whose second is wrong need only
+        # this pair's own calls and are listed first (they reproduce in a fresh interpreter)
+        primary, secondary = [], []
         for na in itertools.product(*[_all_names(n) for n in task['a']]):
             for nb in itertools.product(*[_all_names(n) for n in task['b']]):
                 count += 1
                 o1, o2 = _wobj(list(na)), _wobj(list(nb))
                 got = [o1.path, o2.path, o1.path]
                 if got != [_ref_path(na), _ref_path(nb), _ref_path(na)]:
-                    viol.append(dict(what='writer-path', inputs=dict(names_a=list(na), names_b=list(nb)),
-                                     names_a=list(na), names_b=list(nb), got=got))
-                    if len(viol) >= 50:
-                        return viol, count
+                    first_ok = got[0] == _ref_path(na)
+                    v = dict(what='writer-path' if first_ok else 'writer-path-after-other-calls', inputs=dict(names_a=list(na), names_b=list(nb)),
+                             names_a=list(na), names_b=list(nb), got=got)
+                    (primary if first_ok and len(primary) < 50 else secondary).append(v)
+        viol = primary + secondary[:max(0, 50 - len(primary))]
     else:
         seen = {}
         for na in itertools.product(*[_all_names(n) for n in task['a']]):
